@@ -95,6 +95,37 @@ _verdict(errs[1] > 1e-13 and order < N - 0.5, errors=errs, observed_order=order,
 '''
 
 
+def _replay_lift():
+    """Compiled build: a plane point of each of the four sections is lifted to the energy level h0 and mapped to the synodic frame;
+    mapped back, it must lie on the section, carry the plane coordinates, and have centre-manifold energy h0."""
+    return '''
+import warnings; warnings.filterwarnings("ignore")
+from hiten.system import System
+from hiten.system.center import CenterManifold
+from hiten.algorithms.polynomial.operations import _polynomial_evaluate
+H0, PT = 0.05, (0.02, 0.03)
+SLOT = {"q2": 0, "p2": 1, "q3": 2, "p3": 3}; PLANE = {"q3": ("q2", "p2"), "p3": ("q2", "p2"), "q2": ("q3", "p3"), "p2": ("q3", "p3")}
+bad = {}
+for k in (1, 2):
+    cm = CenterManifold(System.from_bodies("earth", "moon").get_libration_point(k), 6); cm.compute()
+    hs = cm.dynamics.hamsys
+    def h_cm(c4):
+        st = np.zeros(6, dtype=np.complex128); st[1], st[4], st[2], st[5] = c4[0], c4[1], c4[2], c4[3]
+        return float(_polynomial_evaluate(hs.poly_H(), st, hs.clmo_table).real)
+    for sec in ("q3", "p3", "q2", "p2"):
+        tag = "L%d_section_%s" % (k, sec)
+        try:
+            syn = np.asarray(cm.to_synodic(np.array(PT), energy=H0, section_coord=sec), dtype=float); back = np.asarray(cm.to_cm(syn), dtype=float)
+        except Exception as e:
+            bad[tag] = "raised %s" % repr(e)[:80]; continue
+        p0, p1 = PLANE[sec]
+        if abs(back[SLOT[sec]]) > 1e-4: bad[tag + "_on_section"] = float(back[SLOT[sec]])
+        elif max(abs(back[SLOT[p0]] - PT[0]), abs(back[SLOT[p1]] - PT[1])) > 1e-4: bad[tag + "_plane_coordinates"] = back.tolist()
+        elif abs(h_cm(back) - H0) > 1e-3 * H0: bad[tag + "_energy"] = "H = %.6g instead of %.6g" % (h_cm(back), H0)
+_verdict(bool(bad), **bad)
+'''
+
+
 def lie_roundtrip(chk, N):
     """(2) with the code's own forward/inverse Lie series of a symbolic Hamiltonian: to_cm o to_synodic = id mod degree N+1 on
     the centre manifold (the local<->synodic and modal<->local stages are exact inverses by (1) and are bypassed here because
@@ -205,7 +236,7 @@ def section_lift(chk):
             v, m, k = ex.prove_all(p, goals)
             ok = ok and struct and v == 'unsat'
         chk.absorb(ex)
-        (chk.ok if ok and nret else (lambda o, d: chk.fail(o, d, None)))('C09/(4)section-lift/%s' % sc, '%d paths (%d returning a state): root of H(state) - h0 from a bracket [0, b] with res(0) <= 0 < res(b); the returned 4-vector carries the plane point, the root in the conjugate slot and section coordinate exactly 0' % (len(paths), nret))
+        (chk.ok if ok and nret else (lambda o, d: chk.fail(o, d, _replay_lift())))('C09/(4)section-lift/%s' % sc, '%d paths (%d returning a state): root of H(state) - h0 from a bracket [0, b] with res(0) <= 0 < res(b); the returned 4-vector carries the plane point, the root in the conjugate slot and section coordinate exactly 0' % (len(paths), nret))
 
 
 def main():
